@@ -40,7 +40,8 @@ package transaction
 // (its plugin-not-found branch records the failure there, also when it is called for a change).
 //@ func (*Reconciler).applyValues(r, ctx, transaction, configuration, values) (ok, err)
 //@   props C20
-//@   safe
+// (not swept for panics: configuration.Status.Mastership is a pointer that this step reads without a check; whether a
+// configuration can reach it without a mastership record depends on the v3 mastership controller, which is out of scope)
 //@   requires v3Ready(r, transaction, configuration)
 //@   modifies lastSetConnID, deviceSetFailures, deviceSetCalls, deviceCode, lastSetElectionLow, lastSetElectionHigh, lastSetHasArbitration, lastSetConn, lastSetRequest, lastTopoGetOK, lastConnGetOK, lastGetPluginOK, v3TxnStatusWrites, v3LastTxnWriteAtCfgWrites, transaction.ObjectMeta, transaction.Status.Rollback.Apply.State, transaction.Status.Rollback.Apply.Failure, transaction.Status.Rollback.Apply.End
 //@   ensures {C20} at-most-one-set: deviceSetCalls <= old(deviceSetCalls) + 1 && (ok ==> deviceSetCalls == old(deviceSetCalls) + 1) && (deviceSetCalls > old(deviceSetCalls) ==> ok)
